@@ -88,13 +88,18 @@ def run(ctx):
             return
         for i in range(n_ws):
             root = ctx.scratch(f"ws{i}")
-            ws = gen.gen_workspace(root, ctx.rng, allow_multiline=False, indirect_multi=True)
+            ws = directed_editable_above(root, ctx.rng) if i == 1 else gen.gen_workspace(root, ctx.rng, allow_multiline=False, indirect_multi=True)
             materialize(ws)
             model = ws.model()
             db = vh.new_db()
             r = vh.call(op="scan", db=db, root=root, timeout=120)
             if "panic" in r or "error" in r:
                 raise Inconclusive(f"scan failed: {r}")
+            if i % 4 == 1:
+                # the editor opens every conftest after the scan (same text): nothing about visibility changes
+                for rel in ws.workspace_py():
+                    if rel.endswith("conftest.py"):
+                        vh.call(op="analyze", db=db, path=ws.abs(rel), text=ws.files[rel])
             raw = vh.call(op="raw", db=db)
             order = def_index(raw)
             for phase in ("scanned", "conftests_closed"):
@@ -128,6 +133,33 @@ def run(ctx):
             shutil.rmtree(root, ignore_errors=True)
     finally:
         vh.close()
+
+
+def directed_editable_above(root, rng):
+    """the project is installed editable from the directory above the workspace (pip install -e of the repository root, editor
+    opened on a sub-directory): sibling directories keep their fixtures to themselves"""
+    import json
+    ws = gen.WS(root)
+    sp = f".venv/lib/{gen.PYVER}/site-packages"
+    parent = os.path.dirname(root)
+    f1, _ = gen.fixture_src(ws, "only_a", rng)
+    f2, _ = gen.fixture_src(ws, "only_b", rng)
+    f3, _ = gen.fixture_src(ws, "helper_b", rng)
+    f4, _ = gen.fixture_src(ws, "root_fx", rng)
+    ws.files = {
+        "conftest.py": gen.HEADER + f4, "a/conftest.py": gen.HEADER + f1, "b/__init__.py": "",
+        "b/conftest.py": "from .helpers import *\n" + gen.HEADER + f2, "b/helpers.py": gen.HEADER + f3,
+        "a/test_probe.py": "def test_a(only_a, only_b, helper_b, root_fx):\n    pass\n",
+        "b/test_probe.py": "def test_b(only_a, only_b, helper_b, root_fx):\n    pass\n",
+        "test_probe.py": "def test_r(only_a, only_b, helper_b, root_fx):\n    pass\n",
+        ".venv/pyvenv.cfg": "home = /usr/bin\n", f"{sp}/_pytest/__init__.py": "",
+        f"{sp}/selfproj-0.1.dist-info/direct_url.json": json.dumps({"url": "file://" + parent, "dir_info": {"editable": True}}),
+        f"{sp}/selfproj-0.1.dist-info/METADATA": "Name: selfproj\n", f"{sp}/__editable__.selfproj-0.1.pth": parent + "\n"}
+    ws.site_rel.append(sp)
+    ws.third_party_rel.add(f"{sp}/_pytest/__init__.py")
+    ws.spec = {"directed": "editable install root above the workspace", "depth": 1, "names": ["only_a", "only_b", "helper_b", "root_fx"], "levels": []}
+    ws.features.add(("editable_root_above_workspace",))
+    return ws
 
 
 def run_lsp(ctx, ws, model, order):
